@@ -8,6 +8,8 @@ Line-protocol driver for the blazer / Sequential-ordering model (property C16).
       reply  T / F   (the decidable perfect-matching predicate used by the theorems)
   seq <lhs>:<read>,<read>..;<lhs>:..;..
       reply  names=..;im=<bits>;isseq=T|F;res=ok:[..]|err:bad;state=<lhs>:<reads>;..
+  seqops <eqs as for seq> | <op> | <op> ..     op: `r <perm>` reorder_equations, `s` sequentialize, `c` copy
+      reply  <state> | res=..;<state> | ..      state: names=..;im=..;isseq=..;state=..
 -/
 import IrisVerif.Model.Blazer
 import IrisVerif.Driver.Util
@@ -94,6 +96,35 @@ def doSeq (m : SModel) : String :=
       | .error _ => "err:bad") ++
     ";state=" ++ ";".intercalate (m'.map showSEq)
 
+def seqOp? (s : String) : Option SOp :=
+  match words s with
+  | ["s"] => some .sequentialize
+  | ["c"] => some .copy
+  | ["r", p] => (natList? p).map .reorder
+  | ["r"] => some (.reorder [])
+  | _ => none
+
+def showState (m : SModel) : String :=
+  let names := lhsNames m
+  let im := seqInc m
+  let bits := String.join ((List.range m.length).map fun i =>
+    String.join ((List.range names.length).map fun j => if im i j then "1" else "0"))
+  "names=" ++ csv (names.map toString) ++ ";im=" ++ bits ++ ";isseq=" ++ showBool (isSequential m) ++
+    ";state=" ++ ";".intercalate (m.map showSEq)
+
+/-- one reply segment per call: outcome of the call, then the observable state afterwards -/
+def doSeqOps : SModel → List SOp → List String
+  | _, [] => []
+  | m, op :: rest =>
+    let res := match op with
+      | .reorder p => (match (reorderEquations m p).1 with | .ok _ => "ok" | .error _ => "err:bad")
+      | .sequentialize => (match (sequentialize m).1 with
+          | .ok o => "ok:[" ++ csv (o.map toString) ++ "]"
+          | .error _ => "err:bad")
+      | .copy => "ok"
+    let m' := applyOp m op
+    ("res=" ++ res ++ ";" ++ showState m') :: doSeqOps m' rest
+
 def step (line : String) : String :=
   match words line with
   | "blaze" :: nr :: nc :: bits :: rest =>
@@ -115,6 +146,13 @@ def step (line : String) : String :=
       if bs.length ≠ n * n then "bad-op"
       else showBool (hasPM (incOf (chunk n n bs)) (List.range n) (List.range n))
     | _, _ => "bad-op"
+  | "seqops" :: rest =>
+    match (" ".intercalate rest).splitOn "|" with
+    | body :: ops =>
+      match ((body.splitOn ";").filter fun s => nosp s ≠ "").mapM sEq?, ops.mapM seqOp? with
+      | some m, some ops => " | ".intercalate (showState m :: doSeqOps m ops)
+      | _, _ => "bad-op"
+    | [] => "bad-op"
   | "seq" :: rest =>
     let body := " ".intercalate rest
     match ((body.splitOn ";").filter fun s => nosp s ≠ "").mapM sEq? with
